@@ -1,0 +1,58 @@
+//go:build verif
+
+package exporter
+
+import (
+	"crypto/tls"
+	"net"
+	"sync"
+
+	"github.com/vmware/go-ipfix/pkg/entities"
+)
+
+// Verification hooks (build tag "verif"): they only export what is
+// unexported; no behaviour of the package changes.
+
+// VerifNewExportingProcess builds an exporting process around an existing
+// connection: no dialling, no background goroutines.
+func VerifNewExportingProcess(conn net.Conn, obsDomainID uint32) *ExportingProcess {
+	return &ExportingProcess{
+		connToCollector: conn,
+		obsDomainID:     obsDomainID,
+		seqNumber:       0,
+		templateID:      startTemplateID,
+		templatesMap:    make(map[uint16]templateValue),
+		wg:              sync.WaitGroup{},
+		stopCh:          make(chan struct{}),
+	}
+}
+
+// VerifSetSeq sets the sequence counter (so the 2^32 wrap is reachable).
+func (ep *ExportingProcess) VerifSetSeq(s uint32) { ep.seqNumber = s }
+
+// VerifSeq reads the sequence counter.
+func (ep *ExportingProcess) VerifSeq() uint32 { return ep.seqNumber }
+
+// VerifSendRefreshedTemplates runs one template refresh.
+func (ep *ExportingProcess) VerifSendRefreshedTemplates() error { return ep.sendRefreshedTemplates() }
+
+// VerifCheckConn runs one connection check.
+func (ep *ExportingProcess) VerifCheckConn() bool {
+	return ep.checkConnToCollector(make([]byte, 1))
+}
+
+// VerifCloseInternal runs the internal close (what background goroutines call).
+func (ep *ExportingProcess) VerifCloseInternal() { ep.closeConnToCollector() }
+
+// VerifClientTLSConfig exposes createClientConfig.
+func VerifClientTLSConfig(cfg *ExporterTLSClientConfig) (*tls.Config, error) {
+	return createClientConfig(cfg)
+}
+
+// VerifTemplateIDs lists the template ids recorded as sent.
+func (ep *ExportingProcess) VerifTemplateElements(id uint16) ([]*entities.InfoElement, bool) {
+	ep.templateMutex.Lock()
+	defer ep.templateMutex.Unlock()
+	v, ok := ep.templatesMap[id]
+	return v.elements, ok
+}
